@@ -180,6 +180,8 @@ type Deco struct {
 	NoTTL bool
 	// Calls counts engine calls by name.
 	Calls map[string]int
+	// LastGet: the value the last successful Get of (thread|key) returned.
+	LastGet map[string][]byte
 	// OnCommitDone runs after a Commit returned.
 	OnCommitDone func(b *BatchRec)
 	// IterFault fails the n-th Iter call.
@@ -221,7 +223,16 @@ func (d *Deco) GetPartitions(ctx context.Context, start, end []byte) ([]storage.
 
 func (d *Deco) Get(ctx context.Context, key []byte) ([]byte, error) {
 	d.y("kv.get")
-	return d.KvStorage.Get(ctx, key)
+	v, err := d.KvStorage.Get(ctx, key)
+	if d.LastGet == nil {
+		d.LastGet = map[string][]byte{}
+	}
+	if err == nil {
+		d.LastGet[vrt.CurName()+"|"+string(key)] = cp(v)
+	} else {
+		delete(d.LastGet, vrt.CurName()+"|"+string(key))
+	}
+	return v, err
 }
 
 func (d *Deco) Iter(ctx context.Context, start, end []byte, ts uint64, limit uint64) (storage.Iter, error) {
